@@ -231,7 +231,7 @@ const VALID_FEN: &str = "r3k2r/p1ppqpb1/bn2pnp1/3PN3/1p2P3/2N2Q1p/PPPBBPPP/R3K2R
 /// token vocabulary of the parser enumeration: the UCI words plus junk
 const VOCAB: &[&str] = &[
     "uci", "isready", "ucinewgame", "setoption", "name", "value", "position", "startpos", "fen", "moves", "go", "searchmoves", "ponder", "wtime", "btime", "winc", "binc", "movestogo",
-    "depth", "nodes", "mate", "movetime", "infinite", "stop", "quit", "5", "0", "-1", "abc", "99999999999999999999999", "e2e4", "e7e8q", "Hash",
+    "depth", "nodes", "mate", "movetime", "infinite", "stop", "quit", "5", "0", "-1", "abc", "99999999999999999999999", "e2e4", "e7e8q", "Hash", "300", "70000", "5000000000", "18446744073709551616",
 ];
 
 fn c15_lines() -> Vec<String> {
@@ -285,6 +285,13 @@ fn c15_lines() -> Vec<String> {
     .map(|x| x.to_string())
     .collect();
     // out-of-range numbers and over-long argument lists
+    v.push("go depth 255".into());
+    v.push("go depth 256".into());
+    v.push("go depth 300".into());
+    v.push("go depth 70000".into());
+    v.push("go nodes 5000000000".into());
+    v.push("go movetime 5000000000".into());
+    v.push("go wtime 18446744073709551616 btime 18446744073709551616".into());
     v.push("go nodes 18446744073709551616".into());
     v.push("go movetime -5".into());
     v.push("go wtime 340282366920938463463374607431768211456 btime 1".into());
@@ -311,7 +318,7 @@ pub fn c15_worker(args: &Args, w: &Worker) -> i32 {
         let count = (n as u64).pow(len as u32);
         // thorough length 5 runs on a reduced alphabet (the first 20 words + junk)
         let (alpha, count): (Vec<&str>, u64) = if len == 5 {
-            let a: Vec<&str> = VOCAB.iter().copied().filter(|t| !matches!(*t, "searchmoves" | "ponder" | "movestogo" | "mate" | "winc" | "binc" | "btime" | "0" | "-1" | "e7e8q" | "Hash" | "uci" | "ucinewgame")).collect();
+            let a: Vec<&str> = VOCAB.iter().copied().filter(|t| !matches!(*t, "searchmoves" | "ponder" | "movestogo" | "mate" | "winc" | "binc" | "btime" | "0" | "-1" | "e7e8q" | "Hash" | "uci" | "ucinewgame" | "70000" | "5000000000" | "18446744073709551616")).collect();
             let c = (a.len() as u64).pow(5);
             (a, c)
         } else {
